@@ -301,6 +301,48 @@ ROUND6 = {
 }
 
 
+ROUND7 = {
+    ("C01", "A"): ("relaxed mode: last walk step never evaluated + all-failed branch returns option A's colour: a passing colour comes back with False (mode 2, fix reached in exactly the 15th step)", None),
+    ("C01", "B"): ("text equal to background: black/white fallback flagged by the AA badge only (very_readable on mid-tone backgrounds)", None),
+    ("C02", "A"): ("tie clause with math.isclose(rel_tol=1e-3): a descent result a hair below the original replaces 'no candidate' (near-corner vivid text)", None),
+    ("C02", "B"): ("successful fix stored back into pair.text._rgb: a later call on the same object starts from the tuned colour", None),
+    ("C03", "A"): ("Lab toe written (7.787 t + 16) / 116: CIEDE2000 between dark colours under-reported, search walks to black", None),
+    ("C03", "B"): ("'continue' when the descent returns None also skips the good-enough exit: texts with a channel in the sRGB toe are pushed 3-5 dE", "fixed-text draws: the text (a channel in 0..18, near-black / dark red-brown, or a CSS keyword colour) is kept and the background is steered"),
+    ("C04", "A"): ("unchecked +-1 neighbour step at the end of the lightness search: results 0.03-0.5 dE beyond the tolerance", None),
+    ("C04", "B"): ("bulk API forwards 'mode or 1': strict mode (0) silently runs mode 1", "strict mode also asked through make_readable_bulk (positional and keyword mode=0)"),
+    ("C05", "A"): ("is_readable judged on the ratio rounded to 2 decimals", None),
+    ("C05", "B"): ("bulk status literal 'not readable' whenever the tuner reports failure (AAA asked, AA reached)", None),
+    ("C06", "A"): ("format_color as a lookup table without an 'rgba_tuple' entry (KeyError swallowed): RGBA tuples come back as rgb() / tuple", None),
+    ("C06", "B"): ("detect_color_format strips only the left side: 'grey ' / '777 ' detected as informal rgb", "spellings with trailing (and leading) blanks: keyword, hex with and without '#', rgb(), hsl()"),
+    ("C07", "A"): ("Color._parse copies the background's rgb when text and background inputs compare equal: identical translucent text and background", "Color(s, background_context=Color(s)) for translucent s; C13: ColorPair(s, s)"),
+    ("C07", "B"): ("hsl()/hsla() argument list taken with re.fullmatch and '.': values containing a line feed rejected", None),
+    ("C08", "A"): ("adjusted :root/html rule popped from the declaration map: a later var() user's change is reported but not written", None),
+    ("C08", "B"): ("glob.glob instead of rglob: stylesheets in dot-directories or with dot-prefixed names skipped", "dot-prefixed file and directory names in the directory workloads of C08, C09 and C18"),
+    ("C09", "A"): ("'\\n'.join(read().splitlines()): U+0085, U+2028/9, U+001C-E, U+000B inside comments, strings and identifiers turned into line feeds", "those code points in comments, strings and selectors of the carry-through material"),
+    ("C09", "B"): ("read errors handled without 'continue': an undecodable entry gets an output holding the previous sheet's rules", None),
+    ("C10", "A"): ("x ** 3 instead of the sign-split product: OverflowError for chroma >= 1e103", None),
+    ("C10", "B"): ("is_valid_oklch rejects C > 0.5: safe variant returns grey where the plain one returns a colour", None),
+    ("C11", "A"): ("operands ordered with '<': a tuple compared with a list raises TypeError", "not claimed: needs a list (or other non-tuple carrier) for one colour; the routines are declared for Tuple[int, int, int] and a memo keyed on the tuple would be as legitimate"),
+    ("C11", "B"): ("256-entry linearisation table indexed by channel: float-typed channels raise TypeError", "not claimed: needs float-typed channel values; the statement is about 8-bit colours"),
+    ("C12", "A"): ("size flag reset at the end of the loop body: skipped by 'continue' after an unparsable large-text entry", None),
+    ("C12", "B"): ("Color keeps the stripped string + invalid branch returns pair.text.original: padded unparsable text comes back stripped", None),
+    ("C13", "A"): ("percentage alphas <= 1% taken as fractions", "alphas written as percentages (rgba(r, g, b, a%), rgb(r g b / a%), (r, g, b, 'a%')) with the whole alpha set"),
+    ("C13", "B"): ("RGBA int tuples whose channels are all 0 or 1 taken for HSLA", "RGBA tuples / lists / strings with every channel 0 or 1"),
+    ("C14", "A"): ("named-colour membership tested after removing all whitespace, looked up after removing spaces only: 'dark\\tred' raises KeyError", None),
+    ("C14", "B"): ("hsla alpha branches 'a <= 1' / 'a > 1': NaN binds nothing, UnboundLocalError", None),
+    ("C15", "A"): ("threading.local scratch initialised at import: in every other thread the descent phase silently returns None", "thread pools hold pairs whose result is decided by the chroma descent (selected by switching that phase off); surface pairs among history probes"),
+    ("C15", "B"): ("'large' as a descriptor storing its value on the class: all ColorPair objects share one flag", None),
+    ("C16", "A"): ("relaxed mode gives up when the end of the lightness direction cannot reach the floor, although the default mode repairs such pairs through the descent", "against-direction pairs: 2,000 candidates per quick run, about 40 of which the default mode repairs"),
+    ("C16", "B"): ("relaxed mode accepts the default-mode result only within dE 15", None),
+    ("C17", "A"): ("report path made absolute at import time: after os.chdir the report lands in the import-time directory", None),
+    ("C17", "B"): ("report written with Path.write_text() in the locale's encoding: UnicodeEncodeError when the default text encoding is not UTF-8", "save_report in a fresh interpreter under LC_ALL=C with UTF-8 mode and locale coercion off"),
+    ("C18", "A"): ("--default-bg var() reference re-bound to the first file's resolution", None),
+    ("C18", "B"): ("output write moved behind the per-file try: an unwritable output aborts the run", None),
+    ("C19", "A"): ("rejected bulk entries get a report card whose badge slot carries the raw error text", "bulk save_report lists in which rejected entries carry the hostile text"),
+    ("C19", "B"): ("escape only when a regex without DOTALL finds a special character on the first line", None),
+}
+
+
 def archive(key, pid, src, v, needs, missed):
     if not os.path.exists(os.path.join(src, v + ".diff")):
         print(key, "missing deliverables")
@@ -340,6 +382,12 @@ def archive(key, pid, src, v, needs, missed):
 
 def main():
     want = sys.argv[1:]
+    if want and want[0] == "round7":
+        for (pid, v), (needs, missed) in sorted(ROUND7.items()):
+            if len(want) > 1 and f"{pid}{v}" not in want[1:]:
+                continue
+            archive(f"{pid}-R7{v}", pid, os.path.join("/tmp/seed7", pid + ".out"), v, needs, missed)
+        return
     if want and want[0] == "round6":
         for (pid, v), (needs, missed) in sorted(ROUND6.items()):
             if len(want) > 1 and f"{pid}{v}" not in want[1:]:
